@@ -7,6 +7,14 @@ mkdir -p build evidence replays coq/Gen
 /venv/bin/python -m harness.translate all
 tools/gen_coqproject.sh
 (cd coq && timeout 3000 make -j16)
-(cd ocaml && ocamlfind ocamlopt -O2 -w -a model.mli model.ml driver.ml -o ../build/driver)
-/venv/bin/python -c "from harness import cext; print(cext.build())"
+/venv/bin/python -c "
+import glob, os, sys
+from harness import core, cext
+for f in sorted(glob.glob('coq/Extract/D_*.v')):
+    pid = os.path.basename(f)[2:-2]
+    ok, out = core.build_driver(pid)
+    print('driver', pid, ok)
+    if not ok:
+        print(out[-2000:]); sys.exit(1)
+print(cext.build())"
 echo setup-ok
